@@ -16,7 +16,7 @@
 //!  * `api=<u|i|b>` phase 2 runs `execute_unpaged` / `execute_iter` (the pager's own `RoutingInfo` literals, pager.rs:949-966
 //!                  and 1017-1049) / `Session::batch` of two prepared INSERTs, the second one bound to ANOTHER key (the BATCH
 //!                  frame is recognised and judged by its first statement). Phase 1 always teaches through `execute_unpaged`:
-//!                  the driver learns tablets only from EXECUTE / QUERY responses, never from BATCH responses.
+//!                  the driver learns tablets only from EXECUTE responses (connection.rs:1092, 1137), never from BATCH responses.
 //!  * `pages=2`     (api=i) phase 2 reads `SELECT .. WHERE pk = ?`: page 1 carries a paging state; the first request for
 //!                  page 2 of a key (it must arrive at the coordinator of page 1, or at a replica of the tablet) is answered
 //!                  "is bootstrapping", so the page is asked for again on the next target of the plan built from the pages-2+
@@ -361,7 +361,9 @@ pub fn run(words: &[&str], ctx: &mut Ctx) -> String {
             }
             if pages == 2 {
                 let later: Vec<&Req> = frames.iter().filter(|f| carries_key(f, true)).collect();
-                let (Some(f1), Some(f2)) = (later.first().copied(), later.get(1).copied()) else {
+                // is there any other node the configuration permits (without failover: of the preferred datacenter)?
+                let elsewhere = (0..nodes.len()).any(|nd| nd != f.node && pref_dc.as_ref().is_none_or(|dc| nodes[nd].dc == *dc));
+                let (Some(f1), Some(f2)) = (later.first().copied(), later.get(1).or(if elsewhere { None } else { later.first() }).copied()) else {
                     ctx.fail(format!("e2e tablet: key #{}: {} request(s) for page 2 arrived, 2 expected (the first was answered \"is bootstrapping\")", i, later.len()));
                     continue;
                 };
